@@ -153,7 +153,7 @@ def mask_vs_exec(ai: int, ns: int, svc_state: int, app_state: int, nic_en: bool,
 HARNESSES = {
     "mask_vs_exec": {
         "fn": mask_vs_exec,
-        "quick": [{"fixed": {"kind": "switched", "ns": n, "couple": True}, "timeout": 280} for n in range(4)]
+        "quick": [{"fixed": {"kind": "switched", "ns": n, "couple": True}, "timeout": 500} for n in range(4)]
         + [{"fixed": {"kind": "routed", "ns": 0, "couple": True, "fstate": 0, "via_env": True}, "timeout": 280}]
         + [{"fixed": {"kind": "firewalled", "ns": 0, "svc_state": 0, "app_state": 0, "fstate": 0}, "timeout": 280}]
         + [{"fixed": {"kind": "switched", "ns": 0, "svc_state": 0, "app_state": 0, "fstate": 3}, "timeout": 280}]
